@@ -27,18 +27,18 @@ theorem sortRows_perm (l : List (Nat × Nat × Int)) : (sortRows l).Perm l := by
 /-- the inner loop of get_all_call_outs, on prefix sums -/
 theorem infoRowsList_eq (w : World) (j : Nat) (l : List Entry) (acc : Int) :
     infoRowsList w j l acc =
-      ((cum acc l).filter (fun p => !w.dead.contains p.2.owner)).map
-        (fun p => (p.2.owner, p.2.fn, timeLeft w j p.1)) := by
+      ((cum acc l).filter (fun p => !(!p.2.fp && w.dead.contains p.2.owner))).map
+        (fun p => (p.2.owner, fnCode p.2.fp p.2.fn, timeLeft w j p.1)) := by
   induction l generalizing acc with
   | nil => rfl
   | cons x xs ih =>
     unfold infoRowsList
-    simp only [cum_cons, List.filter_cons]
-    by_cases hd : w.dead.contains x.c.owner = true
+    simp only [cum_cons, List.filter_cons, tie_infoTimeLeft]
+    by_cases hd : (!x.c.fp && w.dead.contains x.c.owner) = true
     · simp only [hd, if_true, Bool.not_true, Bool.false_eq_true, if_false]
       exact ih _
-    · simp only [hd, Bool.false_eq_true, if_false, Bool.not_eq_true] at *
-      simp only [hd, Bool.not_false, if_true, List.map_cons, ih]
+    · have hd' : (!x.c.fp && w.dead.contains x.c.owner) = false := by simpa using hd
+      simp only [hd', Bool.false_eq_true, if_false, Bool.not_false, if_true, List.map_cons, ih]
 
 /-- multiset comparison done by the oracle succeeds on permutations -/
 theorem info_check_of_perm {want rows : List (Nat × Nat × Int)} (h : want.Perm rows) :
@@ -91,16 +91,28 @@ theorem wheelList_pairwise {w : World} (hw : WheelInv w) :
   exact hab (toPend_inj hw ((mem_wheelList hw a).1 ha) ((mem_wheelList hw b).1 hb) heq)
 
 theorem infoRows_eq {w : World} (hw : WheelInv w) :
-    infoRows w = (((wheelList w).map toPend).filter (fun e => !w.dead.contains e.owner)).map
-      (fun e => (e.owner, e.fn, e.due - vnow w)) := by
+    (infoRows w).filter (fun r => !w.dead.contains r.1) =
+      (((wheelList w).map toPend).filter (fun e => !w.dead.contains e.owner)).map
+        (fun e => (e.owner, fnCode e.fp e.fn, e.due - vnow w)) := by
   unfold infoRows wheelList
-  rw [List.map_flatMap, List.filter_flatMap, List.map_flatMap]
+  rw [List.filter_flatMap, List.map_flatMap, List.filter_flatMap, List.map_flatMap]
   congr 1
   funext s
-  simp only [infoRowsList_eq, List.filter_map, List.map_map]
+  rw [infoRowsList_eq, List.filter_map, List.filter_filter]
+  simp only [List.filter_map, List.map_map]
   have hf : List.filter ((fun e : Pend => !w.dead.contains e.owner) ∘ toPend ∘ fun x : Int × Call => x.2)
       (cum 0 (w.slots s)) = List.filter (fun p : Int × Call => !w.dead.contains p.2.owner) (cum 0 (w.slots s)) := rfl
   rw [hf]
+  have hg : List.filter (fun a : Int × Call =>
+        ((fun r : Nat × Nat × Int => !w.dead.contains r.1) ∘
+          fun p : Int × Call => (p.2.owner, fnCode p.2.fp p.2.fn, timeLeft w s p.1)) a &&
+        !(!a.2.fp && w.dead.contains a.2.owner)) (cum 0 (w.slots s)) =
+      List.filter (fun p : Int × Call => !w.dead.contains p.2.owner) (cum 0 (w.slots s)) := by
+    apply List.filter_congr
+    intro p _
+    simp only [Function.comp]
+    cases w.dead.contains p.2.owner <;> simp
+  rw [hg]
   apply List.map_congr_left
   intro p hp
   have hp' := (List.mem_filter.1 hp).1
@@ -110,8 +122,8 @@ theorem infoRows_eq {w : World} (hw : WheelInv w) :
 
 /-- **call_out_info() reports exactly the pending call_outs of live objects with their time left** -/
 theorem info_perm {tick : Bool} {w : World} {j : JState} (hw : WheelInv w) (hs : SimJ tick w j) :
-    ((j.pend.filter (fun e => !isDeadJ j e.owner)).map (fun e => (e.owner, e.fn, e.due - vnow w))).Perm
-      (sortRows (infoRows w)) := by
+    ((j.pend.filter (fun e => !isDeadJ j e.owner)).map (fun e => (e.owner, fnCode e.fp e.fn, e.due - vnow w))).Perm
+      (sortRows ((infoRows w).filter (fun r => !w.dead.contains r.1))) := by
   refine List.Perm.trans ?_ (sortRows_perm _).symm
   rw [infoRows_eq hw]
   apply List.Perm.map
@@ -138,9 +150,9 @@ theorem info_perm {tick : Bool} {w : World} {j : JState} (hw : WheelInv w) (hs :
     exact wheelList_pairwise hw
 
 theorem sim_info {tick : Bool} {w : World} {j : JState} (hw : WheelInv w) (h : SimJ tick w j) :
-    SimJ tick w (judgeStep j (.info (vnow w) (sortRows (infoRows w)))) := by
+    SimJ tick w (judgeStep j (.info (vnow w) (sortRows ((infoRows w).filter (fun r => !w.dead.contains r.1))))) := by
   have hp := info_check_of_perm (info_perm hw h)
-  have hj : judgeStep j (.info (vnow w) (sortRows (infoRows w))) = j := by
+  have hj : judgeStep j (.info (vnow w) (sortRows ((infoRows w).filter (fun r => !w.dead.contains r.1)))) = j := by
     simp only [judgeStep]
     rw [if_pos hp]
   rw [hj]; exact h
